@@ -123,7 +123,7 @@ class RotationCorrection(darsia.BaseCorrection):
         src_voxels = np.clip(
             src_voxels.astype(int),
             0,
-            np.outer(np.array(shape) - 1, np.ones(num_voxels)),
+            np.outer(np.array(shape[: self.dim]) - 1, np.ones(num_voxels)),
         ).astype(int)
         rotated_img = np.zeros(shape)
         rotated_img[tuple(target_voxels[j] for j in range(self.dim))] = img[
